@@ -5,6 +5,7 @@ import (
 	"html"
 	"os"
 	"strings"
+	"time"
 
 	textwire "github.com/textwire/textwire/v2"
 	"github.com/textwire/textwire/v2/config"
@@ -354,6 +355,9 @@ func runResponseLiteral(c *core.Ctx, l string) {
 					continue
 				}
 				body := rec.body.String()
+				if hp := rec.headerProblem(); hp != "" {
+					c.Violation("escape:response:content-length", hp, map[string]any{"literal": l, "page": page})
+				}
 				src := files[page+".tw"]
 				switch {
 				case page == "fine":
@@ -380,6 +384,8 @@ func loadTree(c *core.Ctx, dir string, files map[string]string, ext string) (*te
 	return loadTreeAs(c, dir, dir, files, ext)
 }
 
+var fixedMtime = time.Unix(1700000000, 0)
+
 // loadTreeAs writes the files under dir and configures the template directory as spelled
 func loadTreeAs(c *core.Ctx, dir, spelled string, files map[string]string, ext string) (*textwire.Template, error) {
 	os.RemoveAll(dir)
@@ -392,6 +398,9 @@ func loadTreeAs(c *core.Ctx, dir, spelled string, files map[string]string, ext s
 			c.Inconclusive("cannot write scratch file: " + err.Error())
 			return nil, nil
 		}
+		// every rewrite of a path carries the same modification time (as after rsync -t or an archive
+		// extraction): anything cached per path, size and time shows up as stale content
+		os.Chtimes(p, fixedMtime, fixedMtime)
 	}
 	c.Input(map[string]any{"files": files, "dir": spelled, "ext": ext})
 	textwire.VerifResetConfig()
